@@ -97,6 +97,14 @@ class _Break(Exception):
     pass
 
 
+class LoopCut(Exception):
+    """A `while` loop went round more often than LOOP_BOUND on this path: the path is cut (the callers that
+    interpret loops argue by induction over the iterations they did see)."""
+
+
+LOOP_BOUND = 3
+
+
 class _Continue(Exception):
     pass
 
@@ -450,6 +458,9 @@ class Evaluator:
                     same = l.attrs.get("name") == r.attrs.get("name")
                 return same if isinstance(op, ast.Is) else not same
             raise Uninterpretable(f"compare {ast.unparse(e)}")
+        if isinstance(e, ast.NamedExpr) and isinstance(e.target, ast.Name):
+            env[e.target.id] = self.ev(e.value, env)
+            return env[e.target.id]
         if isinstance(e, ast.IfExp):
             return self.ev(e.body, env) if self.truth(self.ev(e.test, env)) else self.ev(e.orelse, env)
         if isinstance(e, (ast.GeneratorExp, ast.ListComp)):
@@ -919,6 +930,22 @@ class Evaluator:
                         break
                 if not broke and s.orelse:
                     self.block(s.orelse, env)
+            elif isinstance(s, ast.While):
+                rounds = 0
+                broke = False
+                while self.truth(self.ev(s.test, env)):
+                    rounds += 1
+                    if rounds > LOOP_BOUND:
+                        raise LoopCut()
+                    try:
+                        self.block(s.body, env)
+                    except _Continue:
+                        continue
+                    except _Break:
+                        broke = True
+                        break
+                if not broke and s.orelse:
+                    self.block(s.orelse, env)
             elif isinstance(s, ast.Break):
                 raise _Break()
             elif isinstance(s, ast.Continue):
@@ -993,6 +1020,8 @@ def explore_ev(func_node, args, kwargs=None, globals_=None, limit=512):
                 a = dict(assume)
                 a[f.key] = val
                 work.append(a)
+        except LoopCut:
+            yield assume, ("cut", None), ev
         except Uninterpretable as u_:
             yield assume, ("uninterpretable", str(u_)), ev
         except RecursionError:
@@ -1018,6 +1047,8 @@ def explore(func_node, args, kwargs=None, globals_=None):
                 a = dict(assume)
                 a[f.key] = val
                 work.append(a)
+        except LoopCut:
+            yield assume, ("cut", None)
         except Uninterpretable as u_:
             yield assume, ("uninterpretable", str(u_))
         except RecursionError:
